@@ -385,6 +385,11 @@ func (e *env) checkPagination(dir string, items []item, r request) (pages int, m
 	var got []string
 	cur := r
 	for {
+		if key := excludedByKnown(e.kind, items, cur); key != "" {
+			// a follow-up page request falls into the input class of a listed finding: stop following
+			vlib.Excluded(key)
+			return pages, ""
+		}
 		res := e.call(dir, cur)
 		if res.err != nil {
 			return pages, fmt.Sprintf("page %d %s failed: %v", pages+1, cur, res.err)
@@ -498,65 +503,67 @@ func excludedByKnown(kind string, items []item, r request) string {
 	if kind != fkit.Mem && effPrefix != "" && r.Start != "" && r.Start < effPrefix && vlib.Known(keyStartBeforePrefix) {
 		return keyStartBeforePrefix
 	}
-	if r.API == "grpc" && vlib.Known(keyLastFileName) && lastNameReset(items, r) && len(matches(items, r)) > 0 {
-		return keyLastFileName
+	finalEmpty, midEmpty, genericUnsafe := simulate(kind == fkit.Mem, items, r)
+	if genericUnsafe && vlib.Known(keyGenericRefill) {
+		return keyGenericRefill
 	}
-	if kind == fkit.Mem && effPrefix != "" && vlib.Known(keyGenericRefill) {
-		// the generic path goes wrong as soon as its first page (limit entries after start, any name) is full
-		// without containing limit matches, i.e. when it has to read a second page
-		lim := r.effLimit()
-		if r.API == "list" {
-			lim++
-		}
-		page, hits := 0, 0
-		for _, it := range items {
-			if it.Name < r.Start || it.Name == r.Start && !r.Inclusive {
-				continue
-			}
-			if page == lim {
-				break
-			}
-			page++
-			if strings.HasPrefix(it.Name, effPrefix) {
-				hits++
-			}
-		}
-		if page == lim && hits < lim {
-			return keyGenericRefill
-		}
+	if vlib.Known(keyLastFileName) && (midEmpty || r.API == "grpc" && finalEmpty && len(matches(items, r)) > 0) {
+		return keyLastFileName
 	}
 	return ""
 }
 
-// lastNameReset simulates the read / refill chain of StreamListDirectoryEntries
-// (first read of limit entries, then one more read per batch of expired or
-// filtered-out entries) and reports whether the chain ends with a read that finds
-// nothing, which is when the listed finding C19-lastfilename-reset shows: the
-// returned lastFileName is "" although entries were returned.
-func lastNameReset(items []item, r request) bool {
+// simulate follows the read / refill chain of StreamListDirectoryEntries (first
+// a read of limit entries, then one more read per batch of expired or
+// filtered-out entries) far enough to decide whether a request belongs to the
+// input class of a listed finding. It is used for nothing else.
+//
+//   finalEmpty  the chain ends with a read that finds nothing; the lastFileName
+//               handed back is then "" although entries were returned
+//               (C19-lastfilename-reset: the gRPC handler continues from "")
+//   midEmpty    such an empty read is followed by the refill for filtered-out
+//               entries, which then restarts from "" (same finding)
+//   generic     only for stores without native prefix listing: some read asks
+//               prefixFilterEntries for n entries while the next n entries of the
+//               directory do not all carry the prefix, so it needs a second page
+//               (C19-generic-prefix-refill)
+func simulate(generic bool, items []item, r request) (finalEmpty, midEmpty, genericUnsafe bool) {
 	eff := r.Prefix
 	rest := ""
 	if r.Pattern != "" {
 		eff = wildcardPrefix(r.Pattern)
 		rest = r.Pattern
 	}
-	type ent struct{ expired, missed bool }
+	type ent struct{ prefixed, expired, missed bool }
 	var seq []ent
 	for _, it := range items {
-		if it.Name < r.Start || it.Name == r.Start && !r.Inclusive || !strings.HasPrefix(it.Name, eff) {
+		if it.Name < r.Start || it.Name == r.Start && !r.Inclusive {
+			continue
+		}
+		pre := strings.HasPrefix(it.Name, eff)
+		if !pre && !(generic && eff != "") {
 			continue
 		}
 		missed := rest != "" && !match(rest, it.Name) || r.Exclude != "" && match(r.Exclude, it.Name)
-		seq = append(seq, ent{it.TTL == expired, missed})
+		seq = append(seq, ent{pre, it.TTL == expired, missed})
 	}
 	i, lastEmpty := 0, false
 	read := func(n int) (exp, miss int) {
+		if i+n <= len(seq) {
+			for _, x := range seq[i : i+n] {
+				if !x.prefixed {
+					genericUnsafe = true
+				}
+			}
+		}
 		cnt := 0
 		for cnt < n && i < len(seq) {
-			if seq[i].expired {
-				exp++
-			} else if seq[i].missed {
-				miss++
+			if seq[i].prefixed {
+				if seq[i].expired {
+					exp++
+				} else if seq[i].missed {
+					miss++
+				}
 			}
 			i++
 			cnt++
@@ -567,7 +574,7 @@ func lastNameReset(items []item, r request) bool {
 	inner := func(n int) (miss int) {
 		exp, m := read(n)
 		miss += m
-		for exp > 0 {
+		for exp > 0 && !genericUnsafe {
 			exp, m = read(exp)
 			miss += m
 		}
@@ -577,10 +584,13 @@ func lastNameReset(items []item, r request) bool {
 	if r.API == "list" {
 		lim++
 	}
-	for miss := inner(lim); miss > 0; {
+	for miss := inner(lim); miss > 0 && !genericUnsafe; {
+		if lastEmpty {
+			return true, true, genericUnsafe
+		}
 		miss = inner(miss)
 	}
-	return lastEmpty
+	return lastEmpty, false, genericUnsafe
 }
 
 // expiredInRange: an expired entry lies inside the range the listing has to scan.
